@@ -21,6 +21,9 @@ mod interop;
 static GLOBAL: alloc::Counting = alloc::Counting;
 
 use std::io::{BufRead, Write};
+
+/// op counter for the watchdog: odd while an op runs
+static OP_SEQ: std::sync::atomic::AtomicU64 = std::sync::atomic::AtomicU64::new(0);
 use std::panic::{catch_unwind, AssertUnwindSafe};
 
 pub struct State {
@@ -81,6 +84,30 @@ fn main() {
         std::process::exit(2);
     }
     std::panic::set_hook(Box::new(|_| {}));
+    // Watchdog (C03 / C19 "never a hang"): an op of the real library that does not return within the
+    // limit, or that holds more than the cap, ends the process with a distinctive status; every line
+    // before it has been flushed, so the runner reports exactly that op as the failing input.
+    let limit_ms: u64 = std::env::var("VERIF_OP_TIMEOUT_MS").ok().and_then(|s| s.parse().ok()).unwrap_or(20_000);
+    let cap: usize = std::env::var("VERIF_ALLOC_CAP").ok().and_then(|s| s.parse().ok()).unwrap_or(3 << 30);
+    std::thread::spawn(move || {
+        let mut last = OP_SEQ.load(std::sync::atomic::Ordering::Relaxed);
+        let mut since = std::time::Instant::now();
+        loop {
+            std::thread::sleep(std::time::Duration::from_millis(100));
+            if alloc::current() > cap {
+                eprintln!("watchdog: live allocation above cap");
+                std::process::exit(5);
+            }
+            let now = OP_SEQ.load(std::sync::atomic::Ordering::Relaxed);
+            if now != last {
+                last = now;
+                since = std::time::Instant::now();
+            } else if now % 2 == 1 && since.elapsed().as_millis() as u64 > limit_ms {
+                eprintln!("watchdog: op did not return");
+                std::process::exit(4);
+            }
+        }
+    });
     let stdin = std::io::stdin();
     let stdout = std::io::stdout();
     let mut out = std::io::LineWriter::new(stdout.lock());
@@ -95,7 +122,9 @@ fn main() {
             "dead".to_string()
         } else {
             let base = alloc::begin();
+            OP_SEQ.fetch_add(1, std::sync::atomic::Ordering::Relaxed); // odd: an op is running
             let r = catch_unwind(AssertUnwindSafe(|| exec(&mut st, &toks)));
+            OP_SEQ.fetch_add(1, std::sync::atomic::Ordering::Relaxed); // even: between ops
             let peak = alloc::peak_over(base);
             // C03/C19: no op may allocate more than a constant multiple of what it was given plus a few
             // maximum-size messages (the adversarial AMF0 ops carry their own, tighter bound)
